@@ -59,7 +59,7 @@ Definition comp_shapes (E:env) (s:shape) (c:comp) : list term :=
   | CNot refs | CNode refs | CProperty refs => refs
   | CAnd ls | COr ls | CXone ls => concat ls
   | CQualified refs _ _ disjoint => refs ++ (if disjoint then flat_map (sibling_refs E (sid s)) refs else [])
-  | CClosed _ _ => []
+  | CClosed _ _ | CSparql _ | CCustom _ => []
   end.
 
 Section WithTrig.
@@ -67,11 +67,11 @@ Variable trig : trig_t.
 Variable W : world.
 
 Lemma evalc_errs (P:exn -> Prop) nested g E s fvs ep c :
-  P Reportable ->
+  P Reportable -> P ValFailure ->
   (forall r s' v, In r (comp_shapes E s c) -> lookup E r = Some s' -> errs_in P (nested s' v ep)) ->
   errs_in P (evalc trig W nested g E s fvs ep c).
 Proof.
-  intros HP Hn. destruct c; cbn [evalc comp_shapes] in *.
+  intros HP HV Hn. destruct c; cbn [evalc comp_shapes] in *.
   - apply errs_ok.
   - apply bind_errs; [|intros; apply errs_ok]. apply concatM_map_errs. intros r Hr.
     destruct (lookup E r) as [ns|] eqn:El; [|apply errs_err; auto].
@@ -128,6 +128,11 @@ Proof.
     apply bind_errs; [|intros; apply errs_ok]. apply mapM_errs. intros r _.
     destruct (lookup E r) as [ps|]; [|apply errs_err; auto].
     destruct (is_property_shape ps); [apply errs_ok|apply errs_err; auto].
+  - apply errs_ok.
+  - destruct (cc_val cc); [apply errs_ok|].
+    apply bind_errs; [|intros; apply errs_ok]. apply concatM_map_errs. intros fv _.
+    apply concatM_map_errs. intros v _. apply concatM_map_errs. intros so _.
+    destruct (sol_bound so); [apply errs_ok|]. destruct (sol_failure so); [apply errs_err; auto|apply errs_ok].
 Qed.
 
 Lemma loop_errs (P:exn -> Prop) o top s ev : (forall c, In c (scomps s) -> errs_in P (ev c)) ->
@@ -172,7 +177,7 @@ Proof.
   - apply bind_errs.
     + apply shape_value_nodes_errs. intros p f _. apply value_nodes_not_oof.
     + intros fvs _. apply loop_errs; [|apply incl_refl]. intros c _.
-      apply evalc_errs; [discriminate|]. intros r s' v _ _.
+      apply evalc_errs; [discriminate|discriminate|]. intros r s' v _ _.
       apply IH; [|discriminate]. rewrite app_length. simpl.
       destruct top; simpl in Ed; [lia|]. apply Nat.leb_gt in Ed. lia.
 Qed.
@@ -272,7 +277,7 @@ Proof.
     + apply shape_value_nodes_errs. intros p f _. unfold value_nodes.
       apply eval_path_errs; discriminate.
     + intros fvs _. apply loop_errs; [|apply incl_refl]. intros c Hc.
-      apply evalc_errs; [discriminate|]. intros r s' v Hin El.
+      apply evalc_errs; [discriminate|discriminate|]. intros r s' v Hin El.
       destruct (Hr s c r s' Hs Hc Hin El) as [Hs' Hlt].
       apply IH; auto. rewrite app_length. simpl. lia.
 Qed.
